@@ -1,6 +1,7 @@
 import Gopki.Lemmas.DerLemmas
 import Gopki.Lemmas.IntLemmas
 import Gopki.Model.Pkcs8
+import Gopki.Lemmas.Pkcs8Round
 /-! # C17 — private keys survive PKCS#8/PEM write and read, and interoperate
 
 The container is DER (`X509.decodeDer_enc` / `decodeDer_sound` apply to it as to certificates); the
@@ -65,5 +66,21 @@ theorem C17_unknown_curve (o : Oid) (h : o ∉ curves.map (·.oid)) : namedCurve
   apply List.find?_eq_none.mpr
   intro c hc hco
   exact h (List.mem_map.mpr ⟨c, hc, by simpa using hco⟩)
+
+/-- **write then read is the identity on EC keys**: for every curve of the table, every scalar in
+    1 … n-1 and every public point of up to 200 octets, the PKCS#8 bytes `marshalEc` writes (the model
+    of `marshalECPrivateKeyWithOID` inside `MarshalPKCS8PrivateKey`) are parsed by `parse` (the model of
+    `ParsePKCS8PrivateKey` / `parseECPrivateKey`) as the same curve and the same scalar.  The model's
+    bytes equal the implementation's on every key the `pkcs8` operation writes (correspondence). -/
+theorem C17_pkcs8_roundtrip (k : EcKey) (hc : k.curve ∈ curves) (hd : 0 < k.d ∧ k.d < k.curve.order) (hpub : k.pub.length ≤ 200) :
+    parse (marshalEc k) = .ok (.ec k.curve k.d) := parse_marshalEc k hc hd hpub
+
+/-- the inner structure alone (what `parseECPrivateKey` sees) -/
+theorem C17_sec1_roundtrip (k : EcKey) (hc : k.curve ∈ curves) (hd : 0 < k.d ∧ k.d < k.curve.order) (hpub : k.pub.length ≤ 200) :
+    parseEcInner (some k.curve.oid) (ecPrivateKeyTlv k).enc = .ok (k.curve, k.d) := parseEcInner_ecPrivateKeyTlv k hc hd hpub
+
+set_option maxRecDepth 8000 in
+/-- non-vacuity: on every curve of the table the scalar 1 meets the hypotheses -/
+example : ∀ c ∈ curves, 0 < 1 ∧ 1 < c.order := by decide
 
 end C17
